@@ -66,6 +66,7 @@ mod chemistry;
 pub mod verif {
     pub use crate::canonicalize::verif as canonicalize;
     pub use crate::tts::verif as tts;
+    pub use crate::prefs::verif as prefs;
 }
 
 pub mod shim_filesystem; // really just for override_file_for_debugging_rules, but the config seems to throw it off
